@@ -114,7 +114,9 @@ YIN_KINDS = {
     "yin-elem": (b'%s',
                  ["<leaf name=\"x\">", "</leaf>", "<type name=\"string\"/>", "<type name=\"string\">", "</type>", "<description>", "</description>",
                   "<text>", "</text>", "t", "<z:e xmlns:z=\"urn:q\"/>", "<container name=\"c\">", "</container>", "<!--", "-->", "<![CDATA[", "]]>",
-                  "<leaf name=\"x\"/>", " "]),
+                  "<leaf name=\"x\"/>", " ",
+                  # instances of an extension of the module itself, without and with (unexpected) text content (finding F104)
+                  "<extension name=\"e\"/><z:e/>", "<z:e>t</z:e>"]),
 }
 YIN_HDR = b'<module name="zz%d" xmlns="urn:ietf:params:xml:ns:yang:yin:1" xmlns:z="urn:zz%d"><namespace uri="urn:zz%d"/><prefix value="z"/><yang-version value="1.1"/>'
 
